@@ -7,9 +7,15 @@ PROP = dict(
         dict(module="FastCGI", cfg=dict(quick="FastCGIEmit_quick.cfg", thorough="FastCGIEmit_thorough.cfg"), emit=True,
              workers=4, timeout=dict(quick=300, thorough=1800)),
         dict(module="FcgiRoute", cfg="FcgiRoute.cfg", emit=True, workers=8, coverage=True, timeout=dict(quick=300, thorough=600)),
+        # extension: upstream rotation, connection life cycle, time-outs (FcgiUpstreams.tla, notes/FcgiUpstreams.md); the emitting job of a module comes last
+        dict(module="FcgiUpstreams", cfg=dict(thorough="FcgiUpstreamsLive.cfg"), workers=4, timeout=dict(thorough=600)),
+        dict(module="FcgiUpstreams", cfg=dict(quick="FcgiUpstreams_quick.cfg", thorough="FcgiUpstreams_thorough.cfg"), emit=True, workers=8, coverage=True,
+             timeout=dict(quick=300, thorough=900)),
     ],
-    go=[dict(pkg="c13", test="TestC13", timeout=dict(quick=600, thorough=3000))],
-    traces=[dict(name="fcgiwire", module="FastCGITrace", cfg="FastCGITrace.cfg", timeout=900)],
+    go=[dict(pkg="c13", test="TestC13", timeout=dict(quick=600, thorough=3000)),
+        dict(pkg="cx13upstreams", test="TestCx13Upstreams", timeout=dict(quick=600, thorough=1800))],
+    traces=[dict(name="fcgiwire", module="FastCGITrace", cfg="FastCGITrace.cfg", timeout=900),
+            dict(name="fcgiups", module="FcgiUpstreamsTrace", cfg="FcgiUpstreamsTrace.cfg", timeout=900)],
     exhaustive=dict(quick=True, thorough=True),
     technique="TLA+ specs FastCGI.tla / FcgiRoute.tla model-checked by TLC; record traces of the real FastCGI client validated by TLC against FastCGITrace.tla; response framings and routing table replayed against the real client and running casket instances",
     level_text="TLC explores the code-shaped model of FCGIClient.Do (writePairs thresholds, bufio/streamWriter record splitting) for every sequence of boundary-sized name/value pairs and body lengths and checks the wire-level invariants a conforming responder needs; the same invariants are then checked by TLC on the record headers a byte-level responder captured from the real client for every one of those cases (trace validation), while the decoded pairs and stdin bytes are compared with what was sent. Every responder framing TLC enumerates (record splits, stderr interleavings, terminators, padding, Status present/absent) is played to the real client and the client view compared with the model; the routing/split decision table of FcgiRoute.tla is replayed against casket instances; an env battery runs through casket against the scripted responder and Go's net/http/fcgi child.",
